@@ -835,6 +835,10 @@ func (g *Gen) returnExprs(d int) string {
 // gotoStmt emits a block with a backward and/or forward goto. No variable is
 // declared at the level of the labels.
 func (g *Gen) gotoStmt(o *out, d int) {
+	if g.on("goto-redefine") && g.coin(35, "gotoredef") {
+		g.gotoRedefine(o)
+		return
+	}
 	c := g.name("n")
 	back, fwd := g.name("L"), g.name("L")
 	o.line("{")
@@ -1260,4 +1264,45 @@ func (g *Gen) fault(o *out) {
 		o.line("fmt.Println(np.a)")
 		g.use("fault-nil-deref")
 	}
+}
+
+// gotoRedefine emits a backward goto that re-executes := statements outside
+// any loop: each execution defines new variables, observed later through
+// closures and pointers collected on the way.
+func (g *Gen) gotoRedefine(o *out) {
+	n, fs, ps, lbl := g.name("n"), g.name("fs"), g.name("ps"), g.name("L")
+	x, y, z := g.name("x"), g.name("y"), g.name("z")
+	k := g.n(2, 4, "grk")
+	o.line("{")
+	o.line("\t%s := 0", n)
+	o.line("\t%s := []func() int{}", fs)
+	o.line("\t%s := []*int{}", ps)
+	o.line("%s:", lbl)
+	o.line("\t%s++", n)
+	switch g.pick("grform", 3, 2, 2) {
+	case 0:
+		o.line("\t%s := %s * 10", x, n)
+	case 1:
+		g.needIdent = true
+		o.line("\t%s := identInt(%s * 10)", x, n)
+	default:
+		o.line("\t%s, %s := %s*10, %s", x, z, n, n)
+		o.line("\t_ = %s", z)
+	}
+	o.line("\t%s := %s + 1", y, x)
+	o.line("\t%s = append(%s, func() int { %s++; return %s*100 + %s })", fs, fs, x, x, y)
+	o.line("\t%s = append(%s, &%s)", ps, ps, y)
+	o.line("\tif %s < %d {", n, k)
+	o.line("\t\tgoto %s", lbl)
+	o.line("\t}")
+	f, p := g.name("f"), g.name("p")
+	o.line("\tfor _, %s := range %s {", f, fs)
+	o.line("\t\tfmt.Println(\"gr\", %s(), %s())", f, f)
+	o.line("\t}")
+	o.line("\tfor _, %s := range %s {", p, ps)
+	o.line("\t\t*%s += 1000", p)
+	o.line("\t\tfmt.Println(\"gp\", *%s)", p)
+	o.line("\t}")
+	o.line("}")
+	g.use("goto-redefine")
 }
